@@ -13,7 +13,7 @@ type unredactableEventFieldsV1 struct {
 	RoomID         spec.RawJSON           `json:"room_id,omitempty"`
 	Sender         spec.RawJSON           `json:"sender,omitempty"`
 	StateKey       spec.RawJSON           `json:"state_key,omitempty"`
-	Content        map[string]interface{} `json:"content"`
+	Content        map[string]spec.RawJSON `json:"content"`
 	Hashes         spec.RawJSON           `json:"hashes,omitempty"`
 	Signatures     spec.RawJSON           `json:"signatures,omitempty"`
 	Depth          spec.RawJSON           `json:"depth,omitempty"`
@@ -29,11 +29,11 @@ func (u *unredactableEventFieldsV1) GetType() string {
 	return u.Type
 }
 
-func (u *unredactableEventFieldsV1) GetContent() map[string]interface{} {
+func (u *unredactableEventFieldsV1) GetContent() map[string]spec.RawJSON {
 	return u.Content
 }
 
-func (u *unredactableEventFieldsV1) SetContent(content map[string]interface{}) {
+func (u *unredactableEventFieldsV1) SetContent(content map[string]spec.RawJSON) {
 	u.Content = content
 }
 
@@ -44,7 +44,7 @@ type unredactableEventFieldsV2 struct {
 	RoomID         spec.RawJSON           `json:"room_id,omitempty"`
 	Sender         spec.RawJSON           `json:"sender,omitempty"`
 	StateKey       spec.RawJSON           `json:"state_key,omitempty"`
-	Content        map[string]interface{} `json:"content"`
+	Content        map[string]spec.RawJSON `json:"content"`
 	Hashes         spec.RawJSON           `json:"hashes,omitempty"`
 	Signatures     spec.RawJSON           `json:"signatures,omitempty"`
 	Depth          spec.RawJSON           `json:"depth,omitempty"`
@@ -57,11 +57,11 @@ func (u *unredactableEventFieldsV2) GetType() string {
 	return u.Type
 }
 
-func (u *unredactableEventFieldsV2) GetContent() map[string]interface{} {
+func (u *unredactableEventFieldsV2) GetContent() map[string]spec.RawJSON {
 	return u.Content
 }
 
-func (u *unredactableEventFieldsV2) SetContent(content map[string]interface{}) {
+func (u *unredactableEventFieldsV2) SetContent(content map[string]spec.RawJSON) {
 	u.Content = content
 }
 
@@ -143,8 +143,8 @@ func redactEventJSONV1(eventJSON []byte) ([]byte, error) {
 type unredactableEvent interface {
 	*unredactableEventFieldsV1 | *unredactableEventFieldsV2
 	GetType() string
-	GetContent() map[string]interface{}
-	SetContent(map[string]interface{})
+	GetContent() map[string]spec.RawJSON
+	SetContent(map[string]spec.RawJSON)
 }
 
 func redactEventJSON[T unredactableEvent](eventJSON []byte, unredactableEvent T, eventTypeToKeepContentFields map[string][]string) ([]byte, error) {
@@ -152,7 +152,7 @@ func redactEventJSON[T unredactableEvent](eventJSON []byte, unredactableEvent T,
 	if err := json.Unmarshal(eventJSON, &unredactableEvent); err != nil {
 		return nil, err
 	}
-	newContent := map[string]interface{}{}
+	newContent := map[string]spec.RawJSON{}
 	keepContentFields, ok := eventTypeToKeepContentFields[unredactableEvent.GetType()]
 	if ok && len(keepContentFields) == 0 {
 		// An unredactable content entry with no provided fields should keep all fields.
